@@ -36,6 +36,7 @@ REQUIRED = {
         Frustum_projectPointToScreenExc_error Frustum_projectionMatrixExc_ok Frustum_projectionMatrixExc_persp_error
         Frustum_projectionMatrixExc_ortho_error Frustum_projectionMatrixExc_never
         Frustum_normalizedZToDepthExc_ok Frustum_normalizedZToDepthExc_error Frustum_ZToDepth_concrete Frustum_ZToDepthExc_ok
+        Frustum_ZToDepth_more Frustum_ZToDepthExc_more_ok
         Frustum_screenRadiusExc_ok Frustum_screenRadiusExc_error Frustum_worldRadiusExc_ok Frustum_worldRadiusExc_error
         Frustum_radiusExc_tight Frustum_screenRadiusExc_never Frustum_worldRadiusExc_never
         Frustum_setFovExc_ok Frustum_setFovExc_error
@@ -111,11 +112,11 @@ def _body(text, signature_regex):
         j += 1
 
 
-def _normalise(tokens, renames=None):
+def _normalise(tokens, renames=None, keep_markers=False):
     t = list(tokens)
     out, i = [], 0
     while i < len(t):
-        # if ( singExc ) throw ... ;
+        # if ( singExc ) throw ... ;   ->  the marker <THROW> (its POSITION is checked by _throw_sites, then it is dropped)
         if t[i:i + 5] == ["if", "(", "singExc", ")", "throw"]:
             j = i + 5
             depth = 0
@@ -124,6 +125,8 @@ def _normalise(tokens, renames=None):
                 depth -= t[j] == ")"
                 j += 1
             i = j + 1
+            if keep_markers:
+                out.append("<THROW>")
             continue
         out.append(t[i]); i += 1
     t = out
@@ -180,6 +183,31 @@ TIES = [(a + "(bool)", a + "()", None, None) for a in
 TIES += [("M33.gjInverse(bool)", "M44.gjInverse(bool)", R33, R44), ("M33.gjInverse()", "M44.gjInverse()", R33, R44)]
 
 
+def _throw_sites(tokens):
+    """Position tie for the throws of a `(bool singExc)` body (audit r2 N1a): every `if (singExc) throw ...;` must stand IMMEDIATELY
+    before a failure return `return MatrixNN ();`, and every failure return must have one — so deleting the throws (the token tie)
+    loses nothing: a throw that was moved, duplicated or dropped at one exit is reported.  Returns (#throws, list of problems)."""
+    t = _normalise(tokens, keep_markers=True)
+    probs, n = [], 0
+    def is_fail_return(k):
+        return t[k:k + 1] == ["return"] and re.fullmatch(r"Matrix\d\d", t[k + 1] if k + 1 < len(t) else "") and t[k + 2:k + 5] == ["(", ")", ";"]
+    for k, x in enumerate(t):
+        if x == "<THROW>":
+            n += 1
+            if not is_fail_return(k + 1):
+                probs.append("throw #%d is not followed by the failure return: ... %s" % (n, " ".join(t[max(0, k - 8):k + 8])))
+        elif is_fail_return(k) and (k == 0 or t[k - 1] != "<THROW>"):
+            probs.append("failure return without `if (singExc) throw`: ... %s" % " ".join(t[max(0, k - 10):k + 6]))
+    if any(x in ("throw", "singExc") for x in t):
+        probs.append("a use of singExc / throw that is not of the form `if (singExc) throw ...;` or a forwarded `(singExc)`")
+    return n, probs
+
+
+# expected number of exits (zero pivot in the forward loop, zero diagonal in the backward loop; cofactor guard per arm)
+THROW_SITES = {"M33.gjInverse(bool)": 2, "M44.gjInverse(bool)": 2, "M22.inverse(bool)": 1, "M33.inverse(bool)": 2, "M44.inverse(bool)": 1,
+               "M33.gjInvert(bool)": 0, "M44.gjInvert(bool)": 0, "M22.invert(bool)": 0, "M33.invert(bool)": 0, "M44.invert(bool)": 0}
+
+
 def source_ties(chk):
     """ImathMatrix.h: the checked and the unchecked copy of every inverse / gjInverse body are the same token sequence once
     `if (singExc) throw ...;` is deleted, and the 3x3 and 4x4 Gauss-Jordan bodies are the same modulo the dimension literals."""
@@ -205,6 +233,22 @@ def source_ties(chk):
             chk.fail(name, "source-tie:%s=%s" % (a, b),
                      "the two textual copies differ beyond the `if (singExc) throw`: %s vs %s (an edit to one copy); the pair harness "
                      "(sampled + exhaustive lattices) says whether they still behave the same" % (a, b), detail, False)
+    # position of the throws in the checked copies, and no throw / singExc at all in the unchecked ones
+    for a, want in sorted(THROW_SITES.items()):
+        name = "source-tie: %s: every `if (singExc) throw` stands immediately before a failure return, every failure return has one (%d sites)" % (a, want)
+        ba = _body(text, SIG[a])
+        if ba is None:
+            continue        # reported above
+        n, probs = _throw_sites(_tokens(ba))
+        bu = _body(text, SIG[a.replace("(bool)", "()")])
+        if bu is not None and any(x in ("throw", "singExc") for x in _tokens(bu)):
+            probs.append("the unchecked copy mentions throw / singExc")
+        ok = not probs and n == want
+        chk.oblige(name, "source-tie", ok, None if ok else {"throws": n, "expected": want, "problems": probs[:4]})
+        if not ok:
+            chk.fail(name, "source-tie:throw-sites:" + a, "the throws of %s are not exactly at its failure returns (moved, duplicated or dropped throw): %d found, %d expected"
+                     % (a, n, want), {"problems": probs[:6]}, False)
+        res["throw sites " + a] = {"throws": n, "expected": want, "ok": ok}
     chk.extra["source_ties"] = res
 
 
@@ -262,6 +306,7 @@ def pair_candidates(theorem):
 
 NEVER_THROWS = lambda p: "(false)/" in p or p == "Frustum.normalizedZToDepthExc/normalizedZToDepth(ortho)"
 ORACLE = lambda p: "/oracle(" in p
+REPLAY = lambda p: "/replay(" in p          # pseudo-pair: which pivot-search decisions the Gauss-Jordan lattices reached
 # pairs with a generator that puts the numerator one ulp below / exactly at / one ulp above max * |divisor|
 STRADDLE = ["V3.ofV4Exc/ofV4", "Frustum.projectionMatrixExc/projectionMatrix(persp)", "Frustum.aspectExc/aspect",
             "Frustum.localToScreenExc/localToScreen", "Frustum.screenRadiusExc/screenRadius", "Frustum.worldRadiusExc/worldRadius",
@@ -288,6 +333,11 @@ CLASSES = {
 # exhaustive lattices: the number of matrices is known in advance (float + double)
 LATTICE_TOTALS = {"lattice{-1,0,1,2}^9(exhaustive)": 2 * 4 ** 9, "lattice{0,1}^16(exhaustive)": 2 * 2 ** 16,
                   "lattice{-1,0,1}^16,<=6-non-zeros(exhaustive)": 2 * 686401}
+# magnitude family (3 generic integer bases x all non-zero patterns over {0,+-1,+-2,+-3} in the stage-c column), float + double
+MAGNITUDE_TOTALS = {"M33": {0: 2 * 3 * (7 ** 3 - 1), 1: 2 * 3 * (7 ** 2 - 1)},
+                    "M44": {0: 2 * 3 * (7 ** 4 - 1), 1: 2 * 3 * (7 ** 3 - 1), 2: 2 * 3 * (7 ** 2 - 1)}}
+MAGNITUDE_CLASS = "lattice:pivot-magnitudes{0,+-1,+-2,+-3}(all-patterns-in-the-stage-%d-column)"
+ORACLE_UNDECIDED_CEILING = 0.20      # clean tree, seeds 1-3: 0.097 - 0.105
 # {0,1} 4x4 matrices that are non-singular over the rationals: 22,560 (OEIS A055165); Gauss-Jordan with partial pivoting is exact on them
 NONSINGULAR_01_4x4 = 22560
 ALGO44 = ["extractScaling", "extractScalingAndShear", "extractAndRemoveScalingAndShear", "removeScalingAndShear", "removeScaling",
@@ -308,8 +358,13 @@ def reach_obligations(chk, pairs):
             chk.fail("reach:" + name, "reach:" + name, "the pair harness did not reach what it must reach: %s (%s); a regression on that side of the guard / at that "
                      "call site would be invisible" % (name, detail), {"counts": detail}, False)
     for p, d in sorted(pairs.items()):
+        if REPLAY(p):
+            continue
         if ORACLE(p):
-            ob("%s: the independent predicate decides both outcomes" % p, d["threw"] > 0 and d["returned"] > 0, {"must-throw": d["threw"], "must-return": d["returned"]})
+            und = d["evals"] - d["threw"] - d["returned"]
+            ob("%s: the independent predicate decides both outcomes and leaves at most %d %% undecided" % (p, round(100 * ORACLE_UNDECIDED_CEILING)),
+               d["threw"] > 0 and d["returned"] > 0 and und <= ORACLE_UNDECIDED_CEILING * d["evals"],
+               {"must-throw": d["threw"], "must-return": d["returned"], "undecided(inside the rounding band)": und})
         elif NEVER_THROWS(p):
             ob("%s: the checked member never throws here" % p, d["threw"] == 0 and d["returned"] > 0, {"threw": d["threw"], "returned": d["returned"]})
         else:
@@ -329,6 +384,40 @@ def reach_obligations(chk, pairs):
             if any(k == kk for kk, _ in CLASSES[p]):
                 got = _cls_count(d, k, "threw") + _cls_count(d, k, "returned")
                 ob("%s: %s enumerated completely (%d matrices, float + double)" % (p, k, total), got == total, {"evaluated": got, "expected": total})
+    # magnitude family: complete, and the pivot search of the lattices reached every (stage, candidate row, outcome) incl. the sign cases
+    for mn, N in (("M33", 3), ("M44", 4)):
+        d = pairs.get("%s.gjInverse(true)/gjInverse()" % mn, {})
+        for c, total in sorted(MAGNITUDE_TOTALS[mn].items()):
+            k = MAGNITUDE_CLASS % c
+            got = _cls_count(d, k, "threw") + _cls_count(d, k, "returned")
+            ob("%s.gjInverse(true)/gjInverse(): %s enumerated completely (%d matrices, float + double), both outcomes" % (mn, k, total),
+               got == total and _cls_count(d, k, "threw") > 0 and _cls_count(d, k, "returned") > 0, {"evaluated": got, "expected": total})
+        r = pairs.get("%s.gjInverse()/replay(pivot-search-reach-of-the-lattices)" % mn, {})
+        rc_ = r.get("by input class and outcome", {})
+        want = ["returned", "backward%d:zero-diagonal-exit" % (N - 1)]
+        for i in range(N - 1):
+            want += ["stage%d:diagonal-negative" % i, "stage%d:zero-pivot-exit" % i]
+            for j in range(i + 1, N):
+                want += ["stage%d:row%d:%s" % (i, j, o) for o in ["less", "less,candidate-negative", "equal,non-zero", "equal,opposite-signs", "greater",
+                                                                 "greater,candidate-negative", "greater,current-negative"]]
+                want.append("stage%d:swap-with-row%d" % (i, j))
+        miss = [k for k in want if rc_.get(k, 0) == 0]
+        ob("%s Gauss-Jordan lattices: the pivot search reached every (stage, candidate row) x {less, equal (non-zero, opposite signs), greater} x signs, every "
+           "swap and every exit (%d decision classes; replay cross-checked bit for bit against gjInverse ())" % (mn, len(want)),
+           bool(r) and not miss and r.get("fails", 1) == 0, {"not reached": miss[:10], "replay evaluations": r.get("evals")})
+    # matrix classes say what the matrix IS: exact integer determinant (harness self-check `throw-vs-exact-integer-determinant`)
+    for p in ["M22.inverse(true)/inverse()", "M33.inverse(true)/inverse()", "M44.inverse(true)/inverse()", "M33.gjInverse(true)/gjInverse()",
+              "M44.gjInverse(true)/gjInverse()"]:
+        d = pairs.get(p, {})
+        c = {"int:det=0:threw": _cls_count(d, "int:det=0", "threw"), "int:det!=0:returned": _cls_count(d, "int:det!=0", "returned"),
+             "int:det!=0:threw": _cls_count(d, "int:det!=0", "threw")}
+        ob("%s: small-integer matrices with exact determinant 0 (throw) and != 0 (return, never throw) both occur" % p,
+           c["int:det=0:threw"] > 0 and c["int:det!=0:returned"] > 0 and c["int:det!=0:threw"] == 0, c)
+    for p in ["M33.inverse(true)/inverse()", "M44.inverse(true)/inverse()"]:
+        d = pairs.get(p, {})
+        c = {"affine:threw": _cls_count(d, ",affine", "threw"), "affine:returned": _cls_count(d, ",affine", "returned")}
+        ob("%s: the affine fast path and the general path each throw and return" % p,
+           all(v > 0 for v in c.values()) and d["threw"] > c["affine:threw"] and d["returned"] > c["affine:returned"], c)
     d = pairs.get("M44.gjInverse(true)/gjInverse()", {})
     got = _cls_count(d, "lattice{0,1}^16(exhaustive)", "returned")
     ob("M44.gjInverse(true): returns on exactly the %d non-singular {0,1} matrices (x2 element types)" % NONSINGULAR_01_4x4, got == 2 * NONSINGULAR_01_4x4,
@@ -370,23 +459,31 @@ TV_FLOORS = [(r"C07\.M33\.gjInver", 300), (r"C07\.Algo\.(extract|remove|sans)", 
 def run(chk):
     chk.trusted = ["Lean 4.33 kernel; axioms propext/Classical.choice/Quot.sound at most",
                    "translator harness/sym (T = Sym path extraction), validated each run: C++ tree vs real instantiation bitwise at float/double "
-                   "(leaves reached are counted), emitted Lean text vs tree at exact rationals for ALL 98 entries incl. those with opaque calls",
+                   "(leaves reached are counted), emitted Lean text vs tree at exact rationals for ALL 114 entries incl. those with opaque calls",
                    "the opaque stand-in for Matrix44::gjInverse (parameter functions; validated against the real members by TV)",
                    "g++ 12 -O1 -ffp-contract=off for the correspondence harness"]
-    chk.assumptions = ["Matrix44 Gauss-Jordan pair, 3-D decomposition functions, DepthToZ and ZToDepth with non-literal integers: decided by "
-                       "CORRESPONDENCE of the real members (structured inputs; for Gauss-Jordan also exhaustive small-integer lattices and a token-level "
-                       "tie of the source copies), not by theorem",
+    chk.assumptions = ["Matrix44 Gauss-Jordan pair, 3-D decomposition functions, ZToDepth with non-literal integers: decided by CORRESPONDENCE of the "
+                       "real members (structured inputs; for Gauss-Jordan also exhaustive small-integer and pivot-magnitude lattices with the reached "
+                       "pivot-search decisions obliged, and a token-level tie of the source copies incl. the position of every throw), not by theorem here",
+                       "DepthToZExc / DepthToZ: sampled here; the pair THEOREMS are in Props/C16Z.lean (property C16: DepthToZExc_{persp,ortho}_ok/_error, "
+                       "extracted with the recording `operator long` at the literal range (3, 10)); ZToDepthExc: 8 literal triples here, the general "
+                       "integer plumbing of the unchecked member in Props/C16Z.lean",
                        "float decisions at the guards (rounding of max*|d|): probed one ulp either side, not proved",
                        "Props/C07Link: the M44 pair theorems with the Gauss-Jordan parameters instantiated by the C06 hand model "
                        "(Model/GaussJordan.lean, proved correct in Props/C06); the instantiation lemmas gj_hok / gj_herr / gjF_eq are true BY CONSTRUCTION "
                        "(helper lemmas in Lemmas/C07LinkInst.lean, not obligations); that model is tied to the real gjInverse members by the C06 "
-                       "check's harness (c06_inv), which is not re-run here"]
+                       "check's harness (c06_inv), which is not re-run here",
+                       "translator validation reaches only part of the leaves of the big trees (floors are calibrations; the number of FEASIBLE leaves is "
+                       "not known): 2-D decomposition trees ~3 % of the enumerated leaves; for 3x3 Gauss-Jordan the tree is proved equal to the hand model instead"]
     chk.rule = ("theorems: all inputs over an ordered field, tmin/tmax/sqrt/sin/cos/tan/atan2 parameters. correspondence (float and double, real "
-                "code, both members of 67 pairs + 2 independent failure predicates): zero/denormal/tiny/huge/non-finite vectors; w in {0, denormal, <1, >=1}; "
+                "code, both members of 67 pairs + 2 independent failure predicates + 2 Gauss-Jordan replays): zero/denormal/tiny/huge/non-finite vectors; w in {0, denormal, <1, >=1}; "
                 "numerator one ulp below/at/above max*|d| for power-of-two d at every guard where such an input exists (normalizedZToDepth / ZToDepth: "
                 "denominator 0 and one ulp of z either side, 2*far*near at max*near and overflowing); |det| around 1, around and well below min*|cofactor|; "
-                "singular, near-singular, unimodular, dyadic, zero-pivot matrices, affine and general; ALL 3x3 matrices over {-1,0,1,2}, ALL 4x4 over {0,1} "
-                "and over {-1,0,1} with <= 6 non-zeros through the Gauss-Jordan pairs; frusta with right-left/top-bottom/far-near from 0 through "
+                "matrix families dup-or-zero-row, near-singular, unimodular, dyadic, zero-pivot, scaled (a matrix class = family + `affine` when the fast "
+                "path is taken + the EXACT integer determinant being 0 / not 0 for small-integer matrices, cross-checked against the outcome); ALL 3x3 "
+                "matrices over {-1,0,1,2}, ALL 4x4 over {0,1} and over {-1,0,1} with <= 6 non-zeros, and a pivot-magnitude family (all patterns over "
+                "{0,+-1,+-2,+-3} in each stage's pivot column of three generic integer bases) through the Gauss-Jordan pairs, with the reached "
+                "(stage, row, less/equal/greater, signs) decisions obliged; frusta with right-left/top-bottom/far-near from 0 through "
                 "denormal, <1, around 1 to large; p.z and depth near 0; S*H*R*T matrices with zero/tiny/huge scales, parallel / zero / in-span rows "
                 "(every checkForZeroScaleInRow call site is the first to fail on some input: obligation per function and site)")
     bins = troute.build_extractors(chk, [dict(name="sym_leaf", source="sym/sym_leaf.cpp"),
@@ -449,7 +546,7 @@ def run(chk):
     r = pairs_once()
     if r:
         rc, out, m, fails, pairs = r
-        ran = m is not None and len(pairs) >= 69
+        ran = m is not None and len(pairs) >= 71
         chk.oblige("correspondence: c07_pairs ran over all pairs", "correspondence", ran, None if ran else out[-600:])
         if not ran:
             chk.fail("correspondence", "pairs:run", "pair harness did not run to completion", {"output": out[-2000:]}, False)
@@ -458,6 +555,7 @@ def run(chk):
         for pair, d in sorted(pairs.items()):
             ok = d["fails"] == 0
             what = ("throws <=> |det| < 1 and a cofactor >= |det| / min () computed independently in long double" if ORACLE(pair) else
+                    "the harness's replay of the Gauss-Jordan statements reproduces gjInverse () bit for bit on every lattice input" if REPLAY(pair) else
                     "returns => bit-identical; throws (documented kind) <=> unchecked form reports failure")
             chk.oblige("pair:%s: %s" % (pair, what), "correspondence", ok, None if ok else fails.get(pair, [])[:3])
         if ran:
@@ -478,7 +576,11 @@ def run(chk):
                          dict(f, all_failing_input_classes=sorted(set(g["input_class"] for g in group))), True)
         chk.extra["pairs"] = pairs
         chk.extra["pairs_decided_by_correspondence_only"] = sorted(
-            p for p in pairs if re.search(r"M44\.gj|\(M44|Frustum\.ZToDepthExc|DepthToZ", p))
+            p for p in pairs if re.search(r"M44\.gj|\(M44|Frustum\.ZToDepthExc", p) and not REPLAY(p))
+        chk.extra["pairs_sampled_here_and_proved_elsewhere"] = {
+            "Frustum.DepthToZExc/DepthToZ(persp), (ortho)": "Props/C16Z.lean (check C16): DepthToZExc_persp_ok / _ortho_ok (returns => same operand of the cast and same "
+            "integer tail as DepthToZ), DepthToZExc_persp_error / _ortho_error (throws domain_error <=> the exact guard disjunction); extracted with the recording "
+            "`operator long` of harness/sym/sym.h at the literal range (3, 10)"}
         for p in ["V3.ofV4Exc/ofV4", "Frustum.aspectExc/aspect", "M44.gjInverse(true)/gjInverse()", "Algo.extractSHRT(M44,Vec3)"]:
             if p in pairs:
                 chk.sample({"pair": p, **{k: v for k, v in pairs[p].items() if k != "by input class and outcome"}})
